@@ -2,7 +2,7 @@
 PROP = "C14"
 READY = True
 COQ_PROPS = ['Properties_C14']
-RULE = ('operation scripts over several count_min_sketch<int64_t> registers: configurations num_hashes 1..8 (and 255 once), '
+RULE = ('operation scripts over several count_min_sketch<int64_t> registers (every fifth case: count_min_sketch<int32_t>): configurations num_hashes 1..8 (and 255 once), '
         'num_buckets 3..64 incl. non-powers of two, refused configurations, integer and string items from a small universe '
         '(so that collisions and repeats are frequent), non-negative weights (a separate stream of cases mixes in negative '
         'weights), serialize/deserialize points (bytes and stream) after which the restored sketch is used further, merges of compatible/incompatible/self operands (every sixth case: operands agreeing on some but not all of num_hashes, num_buckets, seed, cell count — same cell count in another shape, transposed shape, other seed), queries for tracked and never-seen items, full cell dumps; '
@@ -33,6 +33,8 @@ def gen(rng, tier):
         seed = rng.choice([9001, 0, 1, 12345678901234567])
         neg = (ci % 7 == 0)
         nreg = rng.choice([1, 2, 3])
+        wt = 1 if ci % 5 == 2 else 0      # weight type of the case: 0 = count_min_sketch<int64_t>, 1 = <int32_t> (small weights)
+        if wt: tags.add('int32-weights')
         shapes = None
         if ci % 6 == 5:
             # aimed at the case split of cm_merge_refused: operands that agree on some of (num_hashes, num_buckets, seed,
@@ -43,13 +45,13 @@ def gen(rng, tier):
             if rng.random() < 0.5: shapes.append(shapes[0])
             nreg = len(shapes); tags.add('merge-shape-mismatch')
             for r, (h, b, sd) in enumerate(shapes):
-                ops.append([1, r, h, b, sd])
+                ops.append([1, r, h, b, sd, wt])
         for r in range(nreg if shapes is None else 0):
             if rng.random() < 0.15:
                 # possibly incompatible or refused configuration
-                ops.append([1, r, rng.choice([nh, 1, 2]), rng.choice([nb, 2, 0, 3, nb + 1]), rng.choice([seed, seed + 1])])
+                ops.append([1, r, rng.choice([nh, 1, 2]), rng.choice([nb, 2, 0, 3, nb + 1]), rng.choice([seed, seed + 1]), wt])
             else:
-                ops.append([1, r, nh, nb, seed])
+                ops.append([1, r, nh, nb, seed, wt])
         nupd = rng.choice([0, 1, 5, 20, 60]) if tier == 'quick' else rng.choice([0, 1, 5, 20, 60, 300])
         universe = [item(rng) for _ in range(rng.choice([1, 3, 8, 20]))]
         nu = 0; nq = 0; nm = 0
